@@ -3262,8 +3262,12 @@ class StateRetainer:
         ``backUp()`` or ``restoreBackup()``.
         """
         paramDefs = set()
+        # a component at the top of the scope brings its own material (iterChildrenWithMaterials
+        # only yields the materials of descendants)
+        ownMaterial = getattr(self.composite, "material", None)
         items = itertools.chain(
             (self.composite,),
+            () if ownMaterial is None else (ownMaterial,),
             self.composite.iterChildrenWithMaterials(deep=True),
         )
         for child in items:
